@@ -61,7 +61,7 @@ def key_column(draw, n):
 def group_cases(draw):
     # decisive choices first (late draws are pinned to their first option for a share of Hypothesis's examples)
     what = draw(st.sampled_from(['frame', 'frame', 'frame_axis1', 'series', 'labels', 'apply', 'frame_array', 'go_axis_apply']))
-    pos, depths = draw(st.integers(0, 3)), draw(st.sampled_from([[0], [1], [0, 1]]))
+    pos, depths = draw(st.integers(0, 3)), draw(st.sampled_from([[0], [1], [0, 1], [1, 0], [0, 0], [-1, 0], [1, 1], [-1]]))
     go = draw(st.sampled_from([False, True, False]))
     axis1_list = draw(st.booleans())
     nk = draw(st.sampled_from([1, 2, 1]))
